@@ -1,0 +1,116 @@
+// SPDX-FileCopyrightText: 2020 - 2025 SAP SE
+//
+// SPDX-License-Identifier: Apache-2.0
+
+//go:build verif
+
+// Contracts for the verification machinery under /verif (comment-only file;
+// compiled only with -tags verif and contains no code).
+
+package tds
+
+//@ # ---------------------------------------------------------------------
+//@ # BytesChannel: abstract byte stream (G-stream of DESIGN.md 2.7)
+//@ #   $in   bytes of the stream (absolute positions)
+//@ #   $r    read position, $end number of bytes available
+//@ #   $dry  sticky: some read ran past $end
+//@ #   $out/$w  bytes written / write position
+//@ ghost field BytesChannel.$in [int]int
+//@ ghost field BytesChannel.$r int
+//@ ghost field BytesChannel.$end int
+//@ ghost field BytesChannel.$dry bool
+//@ ghost field BytesChannel.$out [int]int
+//@ ghost field BytesChannel.$w int
+
+//@ pred chwf(ch BytesChannel) { 0 <= ch.$r && ch.$r <= ch.$end && 0 <= ch.$w }
+//@ pred le16(ch BytesChannel, p int) { ch.$in[p] + 256 * ch.$in[p+1] }
+//@ pred le32(ch BytesChannel, p int) { ch.$in[p] + 256 * ch.$in[p+1] + 65536 * ch.$in[p+2] + 16777216 * ch.$in[p+3] }
+//@ pred le64(ch BytesChannel, p int) { le32(ch, p) + 4294967296 * le32(ch, p+4) }
+//@ pred rdok(ch BytesChannel, n int) { old(ch.$r) + n <= ch.$end }
+//@ pred rdpost(ch BytesChannel, n int, err error) { chwf(ch) && (rdok(ch, n) ==> err == nil && ch.$r == old(ch.$r) + n && ch.$dry == old(ch.$dry)) && (!rdok(ch, n) ==> err != nil && neb(err) && ch.$dry && ch.$r == ch.$end) }
+
+//@ interface BytesChannel.Bytes params (n) returns (bs, err)
+//@   requires chwf(this)
+//@   requires [n>=0] n >= 0
+//@   modifies this.$r, this.$dry
+//@   ensures n == 0 ==> err == nil && this.$r == old(this.$r) && this.$dry == old(this.$dry) && chwf(this)
+//@   ensures n > 0 ==> rdpost(this, n, err)
+//@   ensures len(bs) == n && bs != nil && fresh(bs)
+//@   ensures err == nil ==> (forall k int :: 0 <= k && k < n ==> bs[k] == this.$in[old(this.$r) + k])
+
+//@ interface BytesChannel.String params (n) returns (s, err)
+//@   requires chwf(this)
+//@   requires [n>=0] n >= 0
+//@   modifies this.$r, this.$dry
+//@   ensures n == 0 ==> err == nil && this.$r == old(this.$r) && this.$dry == old(this.$dry) && chwf(this)
+//@   ensures n > 0 ==> rdpost(this, n, err)
+//@   ensures len(s) == n
+//@   ensures err == nil ==> (forall k int :: 0 <= k && k < n ==> sat(s, k) == this.$in[old(this.$r) + k])
+
+//@ interface BytesChannel.Byte returns (v, err)
+//@   requires chwf(this)
+//@   modifies this.$r, this.$dry
+//@   ensures rdpost(this, 1, err)
+//@   ensures err == nil ==> v == this.$in[old(this.$r)]
+//@ interface BytesChannel.Uint8 returns (v, err)
+//@   requires chwf(this)
+//@   modifies this.$r, this.$dry
+//@   ensures rdpost(this, 1, err)
+//@   ensures err == nil ==> v == this.$in[old(this.$r)]
+//@ interface BytesChannel.Int8 returns (v, err)
+//@   requires chwf(this)
+//@   modifies this.$r, this.$dry
+//@   ensures rdpost(this, 1, err)
+//@   ensures err == nil ==> (v - this.$in[old(this.$r)]) % 256 == 0
+//@ interface BytesChannel.Uint16 returns (v, err)
+//@   requires chwf(this)
+//@   modifies this.$r, this.$dry
+//@   ensures rdpost(this, 2, err)
+//@   ensures err == nil ==> v == le16(this, old(this.$r))
+//@ interface BytesChannel.Int16 returns (v, err)
+//@   requires chwf(this)
+//@   modifies this.$r, this.$dry
+//@   ensures rdpost(this, 2, err)
+//@   ensures err == nil ==> (v - le16(this, old(this.$r))) % 65536 == 0
+//@ interface BytesChannel.Uint32 returns (v, err)
+//@   requires chwf(this)
+//@   modifies this.$r, this.$dry
+//@   ensures rdpost(this, 4, err)
+//@   ensures err == nil ==> v == le32(this, old(this.$r))
+//@ interface BytesChannel.Int32 returns (v, err)
+//@   requires chwf(this)
+//@   modifies this.$r, this.$dry
+//@   ensures rdpost(this, 4, err)
+//@   ensures err == nil ==> (v - le32(this, old(this.$r))) % 4294967296 == 0
+//@ interface BytesChannel.Uint64 returns (v, err)
+//@   requires chwf(this)
+//@   modifies this.$r, this.$dry
+//@   ensures rdpost(this, 8, err)
+//@   ensures err == nil ==> v == le64(this, old(this.$r))
+//@ interface BytesChannel.Int64 returns (v, err)
+//@   requires chwf(this)
+//@   modifies this.$r, this.$dry
+//@   ensures rdpost(this, 8, err)
+//@   ensures err == nil ==> (v - le64(this, old(this.$r))) % 18446744073709551616 == 0
+
+//@ # ---------------------------------------------------------------------
+//@ # C07: every parser reports a dry stream as ErrNotEnoughBytes
+//@ interface Package.ReadFrom params (ch) returns (err)
+//@   requires nonnil(ch) && chwf(ch)
+//@   modifies ch.$r, ch.$dry
+//@   ensures [neb-on-dry] ch.$dry && !old(ch.$dry) ==> err != nil && neb(err)
+//@   ensures [ok-not-dry] err == nil && !old(ch.$dry) ==> !ch.$dry
+//@   ensures [chwf] chwf(ch)
+
+//@ interface FieldFmt.ReadFrom params (ch) returns (n, err)
+//@   requires nonnil(ch) && chwf(ch)
+//@   modifies ch.$r, ch.$dry
+//@   ensures [neb-on-dry] ch.$dry && !old(ch.$dry) ==> err != nil && neb(err)
+//@   ensures [ok-not-dry] err == nil && !old(ch.$dry) ==> !ch.$dry
+//@   ensures [chwf] chwf(ch)
+//@ interface FieldData.ReadFrom params (ch) returns (n, err)
+//@   requires nonnil(ch) && chwf(ch)
+//@   modifies ch.$r, ch.$dry
+//@   ensures [neb-on-dry] ch.$dry && !old(ch.$dry) ==> err != nil && neb(err)
+//@   ensures [ok-not-dry] err == nil && !old(ch.$dry) ==> !ch.$dry
+//@   ensures [chwf] chwf(ch)
